@@ -186,7 +186,7 @@ fn start_streams(driver: &Driver, seed: u64, thorough: bool, rep: &mut Report) {
     rep.streams.push(st);
 
     let mut st = Stream::new("c17.start.prefixed", true);
-    let n = if thorough { 60_000 } else { 1500 };
+    let n = if thorough { 60_000 } else { 4000 };
     let mut cases = vec![];
     for case in 0..n {
         let mut rng = Rng::derive(seed, "c17.start.prefixed", case);
@@ -295,7 +295,7 @@ fn xref_tail(rng: &mut Rng, conformant: bool) -> (Vec<u8>, String) {
 }
 
 fn xref_streams(driver: &Driver, seed: u64, thorough: bool, rep: &mut Report) {
-    for (name, conformant, n) in [("c17.xref.tail", true, if thorough { 40_000 } else { 1500 }), ("c17.xref.outside", false, if thorough { 40_000 } else { 1500 })] {
+    for (name, conformant, n) in [("c17.xref.tail", true, if thorough { 40_000 } else { 4000 }), ("c17.xref.outside", false, if thorough { 40_000 } else { 4000 })] {
         let mut st = Stream::new(name, conformant);
         let mut cases = vec![];
         for case in 0..n {
@@ -719,7 +719,7 @@ fn real_load(buf: &Vec<u8>, size: u64) -> String {
 pub fn load_streams(driver: &Driver, seed: u64, thorough: bool, rep: &mut Report) {
     for (name, outside) in [("c17.load", false), ("c17.load.outside", true)] {
         let mut st = Stream::new(name, !outside);
-        let n = if thorough { 20_000 } else { 400 };
+        let n = if thorough { 20_000 } else { 1500 };
         let mut cases = vec![];
         for case in 0..n {
             let mut rng = Rng::derive(seed, name, case);
@@ -760,6 +760,7 @@ pub fn load_streams(driver: &Driver, seed: u64, thorough: bool, rep: &mut Report
 
 #[derive(Clone, Debug, PartialEq)]
 pub struct Snapshot {
+    pub version: String,
     pub trailer: String,
     pub objects: Vec<String>,
     pub pages: String,
@@ -800,6 +801,7 @@ pub fn snapshot(buf: &[u8], with_scan: bool) -> Result<Snapshot, String> {
                 Ok(t) => t,
                 Err(e) => { last = format!("load: {}", err_kind(&e)); continue; }
             };
+            let version = match storage.version() { Ok(v) => v, Err(e) => err_kind(&e) };
             let resolver = storage.resolver();
             let mut ts = String::new();
             canon_dict(&trailer, &resolver, &mut ts);
@@ -831,7 +833,7 @@ pub fn snapshot(buf: &[u8], with_scan: bool) -> Result<Snapshot, String> {
                 }
                 Err(e) => format!("file: {}", err_kind(&e)),
             };
-            return Ok(Snapshot { trailer: ts, objects, pages, scan });
+            return Ok(Snapshot { version, trailer: ts, objects, pages, scan });
         }
         Err(last)
     }));
@@ -842,6 +844,9 @@ pub fn snapshot(buf: &[u8], with_scan: bool) -> Result<Snapshot, String> {
 }
 
 fn first_diff(a: &Snapshot, b: &Snapshot) -> Option<(String, String)> {
+    if a.version != b.version {
+        return Some(("version".into(), format!("version differs: {} vs {}", trunc(&a.version), trunc(&b.version))));
+    }
     if a.trailer != b.trailer {
         return Some(("trailer".into(), format!("trailer differs: {} vs {}", trunc(&a.trailer), trunc(&b.trailer))));
     }
@@ -1014,7 +1019,7 @@ fn prefix_oracles(seed: u64, thorough: bool, rep: &mut Report, only: Option<&Val
 
     // corpus
     let files = corpus();
-    let per_file = if thorough { 0 } else { 6 };
+    let per_file = if thorough { 0 } else { 12 };
     for (fi, base) in files.iter().enumerate() {
         if let Some(r) = only { if r["stream"] != "c17.prefix.corpus" || r["file"] != base.name.as_str() { continue; } }
         let big = base.bytes.len() > 100_000;
@@ -1051,7 +1056,7 @@ fn prefix_oracles(seed: u64, thorough: bool, rep: &mut Report, only: Option<&Val
     let (from, to) = match only {
         Some(r) if r["stream"] == "c17.prefix.generated" => { let c = r["case"].as_u64().unwrap_or(0); (c, c + 1) }
         Some(_) => (0, 0),
-        None => (0, if thorough { 6000 } else { 250 }),
+        None => (0, if thorough { 20_000 } else { 1500 }),
     };
     for case in from..to {
         let mut rng = Rng::derive(seed, "c17.prefix.generated", case);
